@@ -60,6 +60,8 @@ class Composer:
         if k == "chk":
             return self.absval(e[1], point, depth + 1)
         if k == "p":
+            if ("abs", e[1]) in point:
+                return point[("abs", e[1])]
             for kind in ("discr", "val", "abs"):
                 if (kind, e[1]) in point:
                     v = point[(kind, e[1])]
@@ -70,6 +72,8 @@ class Composer:
             if d is None:
                 raise Undecided(f"unknown variant {e[1]}")
             return ("enum", d)
+        if k == "agg" and e[1] == "closure":
+            return ("closure", e[2], tuple(self.absval(x, point, depth + 1) for x in e[3]))
         if k == "agg":
             if e[1] == "adt":
                 if e[2].startswith("std::option::Option::"):
@@ -85,6 +89,22 @@ class Composer:
                 return tuple(self.absval(x, point, depth + 1) for x in e[3])
         if k == "repeat":
             return [self.absval(e[1], point, depth + 1)] * int(e[2])
+        if k == "kb":
+            # constant bytes of an array of field-less enums (one discriminant per element)
+            import re as _re
+
+            m = _re.match(r"^&?\[([^;\]]+); (\d+)\]$", e[2])
+            a = self.prog.adts.get(m.group(1)) if m else None
+            if a and a.get("size") and all(not v.get("fields") for v in a["variants"]):
+                sz, n = int(a["size"]), int(m.group(2))
+                raw = bytes.fromhex(e[1])
+                if len(raw) == sz * n:
+                    return [("enum", int.from_bytes(raw[i * sz : (i + 1) * sz], "little")) for i in range(n)]
+            raise Undecided(f"constant {e[2]} is not an array of field-less enums")
+        if k == "ks":
+            return e[1]
+        if k == "agg" and e[1] == "closure":
+            return ("closure", e[2], tuple(self.absval(x, point, depth + 1) for x in e[3]))
         if k == "discr":
             v = self.absval(e[1], point, depth + 1)
             if isinstance(v, tuple) and v and v[0] == "enum":
@@ -103,6 +123,8 @@ class Composer:
                 return base[2][e[2]]
             if isinstance(base, tuple) and base and base[0] == "Some" and e[2] in (0, "0"):
                 return base[1]
+            if isinstance(base, tuple) and base and base[0] == "closure" and isinstance(e[2], int) and e[2] < len(base[2]):
+                return base[2][e[2]]
             if isinstance(base, tuple) and isinstance(e[2], int) and base and base[0] not in ("adt", "enum", "Some", "None") and e[2] < len(base):
                 return base[e[2]]
             raise Undecided(f"field {e[2]!r} of {base!r}")
@@ -145,6 +167,26 @@ class Composer:
             v = self.absval(args[0], point, depth + 1)
             if isinstance(v, tuple) and v and v[0] == "enum":
                 return v[1]
+        last = base.split("::")[-1]
+        if last in ("iter", "into_iter", "copied", "cloned", "clone", "by_ref", "as_slice", "deref", "as_ref", "borrow", "to_owned", "as_str") and len(args) == 1 and not (callee in self.prog.raw_bodies):
+            return self.absval(args[0], point, depth + 1)
+        if last in ("find", "position", "any", "all") and "Iterator" in base and len(args) == 2:
+            seq, clo = self.absval(args[0], point, depth + 1), self.absval(args[1], point, depth + 1)
+            if isinstance(seq, list) and isinstance(clo, tuple) and clo and clo[0] == "closure":
+                t = self.table(clo[1])
+                if t is None:
+                    raise Undecided(f"closure {clo[1]} is not a loop-free table function")
+                hits = []
+                for i, el in enumerate(seq):
+                    cp = {("abs", 1): clo, ("abs", 2): el}
+                    path = t.lookup(cp)
+                    r = self.absval(path.env.local(0), cp, depth + 1)
+                    hits.append(bool(r))
+                if last == "find":
+                    return next((("Some", el) for el, h in zip(seq, hits) if h), ("None",))
+                if last == "position":
+                    return next((("Some", i) for i, h in enumerate(hits) if h), ("None",))
+                return any(hits) if last == "any" else all(hits)
         if base.endswith("Option::<T>::is_some") or base.endswith("Option::<T>::is_none"):
             v = self.absval(args[0], point, depth + 1)
             if isinstance(v, tuple) and v and v[0] in ("Some", "None"):
